@@ -6,6 +6,9 @@ From Coq Require Import List ZArith Bool Permutation.
 From AV Require Import Engine.Core Engine.Sem Engine.Eval Engine.Validate Engine.Naive Engine.Interface Engine.Main.
 From AV Require Import Engine.ParStep Engine.InterfacePar Engine.ParProofs Engine.MainPar.
 From AV Require Import Engine.InterfaceAgg Engine.Strat Engine.StratFixed Engine.EvalSpecAgg Engine.SemiNaiveAgg Engine.ParProofsAgg.
+From AV Require Engine.ParLat.
+From AV Require Engine.ParLatProofs.
+From AV Require LatEngine.LatSem.
 Import ListNotations.
 
 (* one iteration: for every distribution of the derived facts over the workers and every interleaving that lets all
@@ -56,9 +59,71 @@ Theorem c02_par_run_stratified_model : forall (I : interp) swap arities P pl F0 
   /\ exists added, rows st = F0 ++ added.
 Proof. intros I swap. exact (par_run_strat_correct I swap (eval_variant_spec_agg I swap)). Qed.
 
-(* PARTIAL: lattice relations under ascent_par! — the key mutex + re-check protocol of the parallel lattice head
-   update is modelled and proved per iteration in Engine/ParLat*.v where available (one row per key and the join of
-   all contributions for every interleaving), but the whole parallel lattice ENGINE is exercised by the tie only.
+(* ---- lattice relations under ascent_par!: ONE parallel iteration of the lattice head update (Engine/ParLat.v: key index
+   lookups in new / delta / total, join under the row's write lock, key mutex + re-check before a push, re-insertion into
+   new's indices, __changed), for an arbitrary key type, an arbitrary lattice (laws = LatSem.lat_laws, proved for every
+   shipped type in C16 / LatEngine/LatC16.v), any assignment of keys to key mutexes, both orders of the index insertions,
+   EVERY distribution of the contributions over workers and EVERY schedule of atomic steps. *)
+Section LatticeIteration.
+Context {K V : Type}.
+Variable keqb : K -> K -> bool.
+Hypothesis keqb_spec : forall a b : K, keqb a b = true <-> a = b.
+Variable le : V -> V -> Prop.
+Variable jm : V -> V -> V * bool.
+Hypothesis laws : LatSem.lat_laws le jm.
+Variable mx : K -> nat.
+Variable kfirst : bool.
+Variables dl tt : K -> option nat.
+Variable R0 : list (K * V).
+Variable nk0 : list (K * nat).
+Variable ot0 : list nat.
+Variable ch0 : bool.
+Variable work : list (list (K * V)).
+Hypothesis init : ParLatProofs.init_ok keqb le dl tt R0 nk0 ot0 ch0 work.
+(* the code as it is now: new's other indices are set-backed (CLatIndex, /repo d5edf35) *)
+Notation run sched := (ParLat.run_sched keqb jm mx kfirst true dl tt (ParLat.par_init R0 nk0 ot0 ch0 work) sched).
+
+(* one row per key in every reachable state, finished or not *)
+Theorem c02_lattice_one_row_per_key : forall sched, NoDup (map fst (ParLat.lrows (run sched))).
+Proof. exact (ParLatProofs.parlat_one_row_per_key keqb keqb_spec le jm laws mx kfirst true dl tt R0 nk0 ot0 ch0 work init). Qed.
+
+(* after every finishing schedule the row of key k holds THE least upper bound of its old value and all contributions for k,
+   i.e. the value map of the serial head update over the same contributions *)
+Theorem c02_lattice_values_are_the_serial_ones : forall sched, ParLat.finished (run sched) = true ->
+  forall k, ParLat.valof keqb (ParLat.lrows (run sched)) k = ParLat.valof keqb (ParLat.ser_run keqb jm R0 (concat work)) k.
+Proof. exact (ParLatProofs.parlat_values keqb keqb_spec le jm laws mx kfirst true dl tt R0 nk0 ot0 ch0 work init). Qed.
+
+(* every row raised or created is in new's indices afterwards, and (set-backed indices) is listed there ONCE - what makes an
+   aggregate over the relation see one row per key; before /repo d5edf35 it was listed once per insertion:
+   ParLatProofs.parlat_reindexed_once_before_fix_refuted *)
+Theorem c02_lattice_reindexed : forall sched, ParLat.finished (run sched) = true ->
+  forall i k c, nth_error (ParLat.lrows (run sched)) i = Some (k, c) ->
+  nth_error R0 i = Some (k, c) \/
+  (ParLat.klook keqb k (ParLat.lnkey (run sched)) = Some i /\ In i (ParLat.lother (run sched))).
+Proof. exact (ParLatProofs.parlat_reindexed keqb keqb_spec le jm laws mx kfirst true dl tt R0 nk0 ot0 ch0 work init). Qed.
+Theorem c02_lattice_reindexed_once : NoDup ot0 -> forall sched, NoDup (ParLat.lother (run sched)).
+Proof. exact (ParLatProofs.parlat_reindexed_once keqb jm mx kfirst true dl tt R0 nk0 ot0 ch0 work eq_refl). Qed.
+
+(* a false flag means nothing happened; no deadlock; every reachable state can be completed *)
+Theorem c02_lattice_changed_flag : forall sched, ParLat.finished (run sched) = true -> ParLat.lchg (run sched) = false ->
+  ParLat.lrows (run sched) = R0 /\ ParLat.lnkey (run sched) = [].
+Proof. exact (ParLatProofs.parlat_changed keqb keqb_spec le jm laws mx kfirst true dl tt R0 nk0 ot0 ch0 work init). Qed.
+Theorem c02_lattice_progress : forall sched, ParLat.finished (run sched) = false -> exists j, ParLat.enabled mx (run sched) j = true.
+Proof. exact (ParLatProofs.parlat_progress keqb keqb_spec le jm laws mx kfirst true dl tt R0 nk0 ot0 ch0 work init). Qed.
+Theorem c02_lattice_can_finish : forall sched, exists sched', ParLat.finished (run (sched ++ sched')) = true.
+Proof. exact (ParLatProofs.parlat_can_finish keqb keqb_spec le jm laws mx kfirst true dl tt R0 nk0 ot0 ch0 work init). Qed.
+End LatticeIteration.
+
+(* the hypotheses are satisfiable, and a run with a push race (two workers derive the same new key: the second blocks on the key
+   mutex, finds the row in the re-check and joins) *)
+Example c02_lattice_example : forall kfirst,
+  let s := ParLatProofs.zrun kfirst [(7, 0)%Z] [[(5, 1)%Z]; [(5, 2)%Z]] [0; 1; 0; 1; 0; 1; 1; 0; 1; 0; 0; 0; 0; 1; 0; 1; 1; 1; 1]%nat in
+  ParLat.finished s = true /\ ParLat.lrows s = [(7, 0); (5, 2)]%Z /\ ParLat.lother s = [1%nat] /\ ParLat.lheld s = [] /\ ParLat.lchg s = true.
+Proof. exact ParLatProofs.ex_push_race. Qed.
+
+(* PARTIAL: the per-iteration theorems above are not yet composed into a whole parallel lattice ENGINE theorem (iterations, SCCs,
+   rule evaluation over RwLock-guarded rows); that composition is exercised by the tie only (C03's programs and the lattice +
+   aggregate family through ascent_par! against the Kleene oracle).
    RESIDUE that no executable model can exhibit: the real DashMap / RwLock / Mutex / boxcar implementations, rayon's
    work stealing and the Relaxed store to __changed being visible after the scope's join are assumed linearizable /
    correct (trusted base); the schedule space of the real binary is sampled under seeded perturbation
@@ -66,3 +131,6 @@ Proof. intros I swap. exact (par_run_strat_correct I swap (eval_variant_spec_agg
 
 Print Assumptions c02_iteration_schedule_independent. Print Assumptions c02_progress.
 Print Assumptions c02_par_run_least_model. Print Assumptions c02_par_equals_serial. Print Assumptions c02_par_run_stratified_model.
+Print Assumptions c02_lattice_one_row_per_key. Print Assumptions c02_lattice_values_are_the_serial_ones. Print Assumptions c02_lattice_reindexed.
+Print Assumptions c02_lattice_reindexed_once. Print Assumptions c02_lattice_changed_flag. Print Assumptions c02_lattice_progress.
+Print Assumptions c02_lattice_can_finish. Print Assumptions c02_lattice_example.
